@@ -106,6 +106,9 @@ class Device:
         self.bo = None
         self.received = {}           # reassembled parts of the last operation
         self.inject = {}             # (cmd, op) -> status word to answer with, once
+        self.early = {}              # stage -> byte count after which the device moves on early
+        self.reported_success = False
+        self.final_op = None         # override of the final SUCCESS op of sign (e.g. a wrong op)
         self.after_exit = None       # mode to switch to after EXIT
 
     # -- helpers
@@ -269,6 +272,7 @@ class Device:
         body = bytes(data[1:])
         if op == 0x01:
             self.received = {}
+            self.reported_success = False
             if len(body) == 21 + 4:
                 self.received["path"] = body[:21]
                 self.received["input"] = body[21:]
@@ -279,6 +283,7 @@ class Device:
                 self.received["path"] = body[:21]
                 self.received["hash"] = body[21:]
                 self.sg = None
+                self.reported_success = True
                 return D(CLA, 0x02, 0x81, der(*self.sign_sig))
             return self.err(0x6A87)
         if self.sg is None:
@@ -292,7 +297,8 @@ class Device:
                 pl = struct.unpack("<I", sg["buf"][:4])[0]
                 edl = struct.unpack("<H", sg["buf"][5:7])[0]
                 sg["total"] = pl + edl
-            if sg["total"] is not None and len(sg["buf"]) >= sg["total"]:
+            if (sg["total"] is not None and len(sg["buf"]) >= sg["total"]) or \
+                    ("tx" in self.early and len(sg["buf"]) >= self.early["tx"]):
                 self.received["btc_payload"] = sg["buf"]
                 self.sg = {"stage": "receipt", "buf": b"", "total": None}
                 self.ask = self.policy.chunk(3)
@@ -306,7 +312,8 @@ class Device:
             sg["buf"] += body
             if sg["total"] is None:
                 sg["total"] = rlp_total_length(sg["buf"])
-            if sg["total"] is not None and len(sg["buf"]) >= sg["total"]:
+            if (sg["total"] is not None and len(sg["buf"]) >= sg["total"]) or \
+                    ("receipt" in self.early and len(sg["buf"]) >= self.early["receipt"]):
                 self.received["receipt"] = sg["buf"]
                 self.sg = {"stage": "proof", "buf": b""}
                 self.ask = self.policy.chunk(1)
@@ -321,10 +328,11 @@ class Device:
                 return self.err(0x6A87)
             sg["buf"] += body
             need = self._proof_need(sg["buf"])
-            if need == 0:
+            if need == 0 or ("proof" in self.early and len(sg["buf"]) >= self.early["proof"]):
                 self.received["proof"] = sg["buf"]
                 self.sg = None
-                return D(CLA, 0x02, 0x81, der(*self.sign_sig))
+                self.reported_success = (self.final_op or 0x81) == 0x81
+                return D(CLA, 0x02, self.final_op or 0x81, der(*self.sign_sig))
             if len(body) == 0 and self.ask > 0:
                 return self.err(0x6A89)
             self.ask = self.policy.chunk(need)
@@ -360,6 +368,7 @@ class Device:
     #   partial: report PARTIAL instead of SUCCESS when stopping early
     #   ask_brothers: set of block indexes (0-based) for which it asks for brothers
     bo_plan = None
+    final_report = None
 
     def blockop(self, cmd, data):
         adv = cmd == 0x10
@@ -376,6 +385,7 @@ class Device:
             self.received = {"count": struct.unpack(">I", body)[0], "blocks": [], "metas": [],
                              "brothers": {}, "bro_metas": {}, "bro_counts": {}}
             self.bo = {"cmd": cmd, "stage": "meta", "idx": 0}
+            self.final_report = None
             return D(CLA, cmd, OP["META"])
         bo = self.bo
         if bo is None or bo["cmd"] != cmd:
@@ -394,7 +404,9 @@ class Device:
             if done >= rc["count"] or (stop is not None and done >= stop):
                 self.bo = None
                 if adv and plan.get("partial"):
+                    self.final_report = "partial"
                     return D(CLA, cmd, OP["PARTIAL"])
+                self.final_report = "success"
                 return D(CLA, cmd, OP["SUCCESS"])
             bo["idx"] = done
             bo["stage"] = "meta"
